@@ -56,6 +56,8 @@ pub struct PSim {
     pub sys_in_call: usize,
     pub unfolded: usize,
     pub runaway: bool,
+    pub stopped: bool,       // job-control stop (SIGSTOP/SIGTSTP...): alive but not running
+    pub stop_reported: bool, // a waitpid(WUNTRACED) has already reported this stop
     // run-length encoding of (waitpid -> 0, sleep d) pairs
     run_d: u64,
     run_n: u64,
@@ -91,6 +93,8 @@ impl PSim {
             sys_in_call: 0,
             unfolded: 0,
             runaway: false,
+            stopped: false,
+            stop_reported: false,
             run_d: 0,
             run_n: 0,
             pend_wait: false,
@@ -219,6 +223,15 @@ impl PSim {
                 }
             }
         }
+        if self.st == St::Running && self.stopped && !self.stop_reported && flags & libc::WUNTRACED != 0 {
+            // a stopped (not terminated) child is reported to a waiter that asked for it
+            self.stop_reported = true;
+            if !status.is_null() {
+                *status = 0x137f; // WIFSTOPPED, SIGSTOP
+            }
+            self.log(json!({"e":"waitpid","pid":VPID,"nohang":nohang,"ret":VPID,"st":{"k":"stopped","v":19},"untraced":true}));
+            return self.real_pid;
+        }
         match self.st {
             St::Running => {
                 // nohang and still running: candidate for run-length encoding
@@ -259,6 +272,13 @@ impl PSim {
                     && sig != libc::SIGWINCH && sig != libc::SIGSTOP && sig != libc::SIGTSTP
                     && sig != libc::SIGTTIN && sig != libc::SIGTTOU && sig > 0 && sig < 65
                     && !(sig == libc::SIGTERM && self.ignores_term);
+                if sig == libc::SIGSTOP || sig == libc::SIGTSTP || sig == libc::SIGTTIN || sig == libc::SIGTTOU {
+                    self.stopped = true;
+                    self.stop_reported = false;
+                }
+                if sig == libc::SIGCONT {
+                    self.stopped = false;
+                }
                 if fatal {
                     let t = self.now + self.kill_latency;
                     let sooner = self.exit_at.as_ref().map_or(true, |x| t < x.0);
